@@ -54,14 +54,21 @@ theorem fwdNode_true {env : Env} {n : NameId} {v : Val} (hp : v.plain = true) (h
     simp only [hc] at h
     cases v <;> simp_all [Val.plain]
 
-theorem isSubtypeCls_sound (env : Env) (hw : WfEnv env) (c : ClsId) (a : Ann) :
+theorem memberSub_sound (env : Env) (c : ClsId) (m : Ann) : memberSub env c m = true → memberSpec env c m = true := by
+  cases m with
+  | seq sp o a => cases sp <;> simp [memberSub, memberSpec]
+  | map sp o k w => cases sp <;> simp [memberSub, memberSpec]
+  | tuple sp items => cases sp <;> simp [memberSub, memberSpec]
+  | tupleVar sp a => cases sp <;> simp [memberSub, memberSpec]
+  | typeOf sp a => cases sp <;> simp [memberSub, memberSpec]
+  | _ => simp [memberSub, memberSpec]
+
+theorem isSubtypeCls_sound (env : Env) (_hw : WfEnv env) (c : ClsId) (a : Ann) :
     isSubtypeCls env c a = .ok true → subSpec env c a = true := by
-  cases a <;> simp [isSubtypeCls, subSpec]
+  cases a <;> simp [isSubtypeCls, subSpec, cfg_unionSuper.1, cfg_unionSuper.2]
   case union sp ms =>
     intro x hx hm
-    refine ⟨x, hx, ?_⟩
-    cases x <;> simp_all
-    all_goals exact hw.refl _
+    exact ⟨x, hx, memberSub_sound env c x hm⟩
 
 theorem typeOfNode_true {env : Env} (hw : WfEnv env) {pc : Bool} {sp0 : Spell} {a : Ann} {v : Val} (hwf : v.wf env = true)
     (h : typeOfNode env pc sp0 a v = .ok true) : ∃ c, v = .clsObj c ∧ subSpec env c a = true := by
